@@ -21,7 +21,7 @@ ASSUMPTIONS = c01.ASSUMPTIONS
 
 def units(tier):
     c01.BDIR = BDIR
-    return c01.units(tier)
+    return [u for u in c01.units(tier) if not u.name.startswith('big')]      # the large-capacity obligations are run by C01 (their 'C02:' assertion is decided there)
 
 
 def obligations(tier):
